@@ -580,13 +580,26 @@ func (sc *Scenario) steps(runTag string) []dag.Step {
 			st.RetryPolicy = &dag.RetryPolicy{Limit: sc.RLimit[i-1]}
 		}
 		if sc.PCond[i-1] != "none" {
+			// "met": every condition of the list holds; "unmet": exactly one of them does not. The list has one or two
+			// entries and the unmet one comes first or last (chosen from the scenario seed and the step index)
 			key := fmt.Sprintf("VERIF_PC_%s_%d", runTag, i)
-			v := "0"
-			if sc.PCond[i-1] == "met" {
-				v = "1"
+			os.Setenv(key, "1")
+			os.Setenv(key+"_N", "0")
+			yes := dag.Condition{Condition: "$" + key, Expected: "1"}
+			no := dag.Condition{Condition: "$" + key + "_N", Expected: "1"}
+			shape := int((uint64(sc.Seed)>>7)+uint64(i)*2654435761) % 3
+			switch {
+			case sc.PCond[i-1] == "met" && shape == 0:
+				st.Preconditions = []dag.Condition{yes}
+			case sc.PCond[i-1] == "met":
+				st.Preconditions = []dag.Condition{yes, yes}
+			case shape == 0:
+				st.Preconditions = []dag.Condition{no}
+			case shape == 1:
+				st.Preconditions = []dag.Condition{no, yes}
+			default:
+				st.Preconditions = []dag.Condition{yes, no}
 			}
-			os.Setenv(key, v)
-			st.Preconditions = []dag.Condition{{Condition: "$" + key, Expected: "1"}}
 		}
 		steps = append(steps, st)
 	}
@@ -690,7 +703,15 @@ func RunSchedInfo(sc Scenario, tr *Tracer, logDir string, free bool) (*RunInfo, 
 		doneWG.Add(1)
 		go func() {
 			defer doneWG.Done()
+			lrng := rand.New(rand.NewSource(sc.Seed ^ 0x5bd1))
 			for range done {
+				if free {
+					// a listener that is slow now and then (the agent's listener writes the status file and may send
+					// mail before it takes the next node): senders block in `done <- node` meanwhile
+					if lrng.Intn(3) > 0 {
+						time.Sleep(time.Duration(lrng.Intn(2500)) * time.Microsecond)
+					}
+				}
 			}
 		}()
 	}
